@@ -180,7 +180,8 @@ Qed.
    required members present, registered members well-typed ([kind_spec]),
    use / key_ops consistent (EVERY listed operation belongs to the use), and
    [import_spec]: values decode, "d" present => RSA CRT members all-or-none and
-   "oth" absent, the native constructor accepted the numbers (point on the
+   "oth" absent, no "d" => no CRT member and no "oth", OKP "x" = public key of
+   "d", the native constructor accepted the numbers (point on the
    curve, consistent RSA numbers, right OKP length).  Holds for the dict given
    AND for the dict completed with the parameters. *)
 Theorem c11_reject : forall O kt d ps k,
@@ -229,19 +230,44 @@ Example c11_import_instance :
   import_key O_yes KEC (dset ex_ec (K "key_ops") (PList [PStr (asc "sign"); PStr (asc "decrypt")])) [] = Err EValue.
 Proof. exact import_instance. Qed.
 
-(* ---- where the faithful model does NOT meet the property text ("partial RSA
-   CRT parameters / undecodable values are refused at import"):
-   (1) an RSA JWK without "d" is imported as a public key and its p, q, dp, dq,
-       qi members are neither checked for all-or-none nor decoded;
-   (2) an OKP JWK with "d" is imported from "d" alone: "x" is never decoded. *)
-Theorem c11_rsa_crt_without_d_refuted :
-  exists O d k, import_key O KRSA d [] = Ok k /\
-    has d "d" = false /\ has d "p" = true /\ has d "q" = false /\ dec_int d "p" = Err EValue.
-Proof. exact rsa_public_partial_crt_witness. Qed.
+(* ---- every value member that is present decodes; RSA CRT members are
+   all-or-none in EVERY accepted RSA JWK; a private RSA parameter without "d"
+   is refused; the "x" of an OKP private JWK decodes and is the public key of
+   "d" (these two were violated before /repo a02d1ea and a8ff773) *)
+Theorem c11_values_decode : forall O kt d ps k,
+  import_key O kt d ps = Ok k ->
+  forall m, In m (match kt with
+                  | KOct => ["k"] | KRSA => ["n"; "e"; "d"; "p"; "q"; "dp"; "dq"; "qi"]
+                  | KEC => ["x"; "y"; "d"] | KOKP => ["x"; "d"] end)%string ->
+  has d m = true ->
+  match kt with KOct | KOKP => exists o, dec_oct d m = Ok o | _ => exists z, dec_int d m = Ok z end.
+Proof. exact values_decode. Qed.
 
-Theorem c11_okp_x_ignored_refuted :
-  exists O d k, import_key O KOKP d [] = Ok k /\ has d "d" = true /\ dec_oct d "x" = Err EValue.
-Proof. exact okp_x_undecoded_witness. Qed.
+Theorem c11_crt_all_or_none : forall O d ps k,
+  import_key O KRSA d ps = Ok k -> crt_all d \/ crt_none d.
+Proof. exact crt_all_or_none. Qed.
+
+Theorem c11_rsa_private_member_needs_d : forall O d ps c,
+  has d "d" = false -> In c private_without_d -> has d c = true ->
+  forall k, import_key O KRSA d ps <> Ok k.
+Proof. exact rsa_private_member_without_d_refused. Qed.
+
+Theorem c11_okp_x_checked : forall O d ps k,
+  import_key O KOKP d ps = Ok k -> has d "d" = true ->
+  exists crv dd x, k_native k = NOkpPrv crv x dd /\ dec_oct d "x" = Ok x /\
+                   dec_oct d "d" = Ok dd /\ o_okp_prv O crv dd = Ok x.
+Proof. exact okp_x_checked. Qed.
+
+(* the JWKs that were accepted before those fixes are refused *)
+Example c11_old_witnesses_refused :
+  has ex_rsa_pub_with_p "d" = false /\ has ex_rsa_pub_with_p "p" = true /\
+  has ex_rsa_pub_with_p "q" = false /\
+  import_key O_yes KRSA ex_rsa_pub_with_p [] = Err EValue /\
+  has ex_okp_bad_x "d" = true /\ dec_oct ex_okp_bad_x "x" = Err EValue /\
+  import_key O_yes KOKP ex_okp_bad_x [] = Err EValue /\
+  import_key O_yes KOKP (dset ex_okp_bad_x (K "x") (PStr (asc "nWGxne_9WmC6hEr0kuwsxERJxWl7MmkZcDusAxyuf2Q"))) [] = Err EValue /\
+  (exists k, import_key O_yes KOKP (dset ex_okp_bad_x (K "x") (PStr (asc "nWGxne_9WmC6hEr0kuwsxERJxWl7MmkZcDusAxyuf2A"))) [] = Ok k).
+Proof. exact old_witnesses_refused. Qed.
 
 (* deviation recorded for classification: in_choices accepts "key_ops" given as
    one JSON string and "use" given as a JSON array (c11_validator_iff, VChoices) *)
@@ -271,5 +297,7 @@ Print Assumptions c11_import_iff.
 Print Assumptions c11_validate_iff.
 Print Assumptions c11_validator_iff.
 Print Assumptions c11_refused.
-Print Assumptions c11_rsa_crt_without_d_refuted.
-Print Assumptions c11_okp_x_ignored_refuted.
+Print Assumptions c11_values_decode.
+Print Assumptions c11_crt_all_or_none.
+Print Assumptions c11_rsa_private_member_needs_d.
+Print Assumptions c11_okp_x_checked.
